@@ -147,18 +147,20 @@ func ShrinkConfigs(c *Config) []*Config {
 // destination, and both senders are regularly asleep behind it.
 func ContendedConfig(r Rander, kind string, nops int) *Config {
 	c := GenConfig(r, kind, nops)
-	c.PortBuf = 2
-	c.Window = 4
+	c.PortBuf = r.Range(2, 3)
+	c.Window = 8
 	c.MemWidth = 1
-	c.MemLat = r.Range(6, 14)
+	c.MemLat = r.Range(3, 9)
 	c.DriverMHz = 1000
-	// the destination stops retrieving for a while (Pause ... Enable) so that both
-	// senders pile up behind a full incoming buffer and the connection goes to sleep
-	top := map[string]string{"ideal": "MemCtrl", "wb": "L2", "banked": "Mem", "wt": "L1", "wtwb": "L1", "dram": "DRAM", "wbdram": "L2", "vm": "L1"}[kind]
-	c.Ctrl = []Ctrl{{After: r.Range(1, 3), Target: top, Cmd: 0}, {After: 0, Target: top, Cmd: 2, Wait: r.Range(20, 60)}}
-	c.Ops2 = nil
+	// the destination runs 2-5x slower than the senders: its incoming buffer is
+	// full most of the time, the connection sleeps between its retrievals, and the
+	// senders keep pushing into non-empty outgoing buffers
+	c.MemMHz = []uint64{500, 333, 250, 200}[r.Intn(4)]
+	c.Ctrl = nil
+	c.Ops, c.Ops2 = nil, nil
 	for i := 0; i < nops; i++ {
-		c.Ops2 = append(c.Ops2, Op{Write: r.Chance(1, 2), Addr: uint64(64*(40+i%9)) + uint64(r.Intn(16))*4, Val: uint32(r.U64())})
+		c.Ops = append(c.Ops, Op{Write: r.Chance(1, 2), Addr: uint64(64*(i%13)) + uint64(r.Intn(16))*4, Val: uint32(r.U64())})
+		c.Ops2 = append(c.Ops2, Op{Write: r.Chance(1, 2), Addr: uint64(64*(40+i%11)) + uint64(r.Intn(16))*4, Val: uint32(r.U64())})
 	}
 	return c
 }
